@@ -825,17 +825,18 @@ def trace(A, data, case, via):
 
 
 def lstsq_cond(mat):
-    """condition number that governs np.linalg.lstsq on `mat`: singular values below
-    eps * max(M, N) * sigma_max are treated as exact rank deficiency (they are truncated
-    by lstsq, which then returns the exact minimum-norm minimiser)"""
+    """2-norm condition number of a design matrix handed to np.linalg.lstsq (inf when it is
+    rank deficient or under-determined).  A numerically rank-deficient design is *not* a
+    well-conditioned block problem: a noise singular value of relative size 1e-14 that happens
+    to lie just above lstsq's rcond = eps * max(M, N) is inverted, the block comes back with
+    entries of size 1e13 and the sweep is no longer a descent step (seen in CMTF, C07 seed 3)."""
     mat = np.asarray(mat, dtype=float)
-    if not np.all(np.isfinite(mat)):
+    if not np.all(np.isfinite(mat)) or mat.shape[0] < mat.shape[1]:
         return float("inf")
     sv = np.linalg.svd(mat, compute_uv=False)
-    if sv.size == 0 or sv[0] == 0:
+    if sv.size == 0:
         return 1.0
-    kept = sv[sv > np.finfo(float).eps * max(mat.shape) * sv[0]]
-    return float(sv[0] / kept[-1])
+    return float(sv[0] / sv[-1]) if sv[-1] > 0 else float("inf")
 
 
 def tr_lstsq_cond(cores):
